@@ -226,6 +226,8 @@ pub fn run(c: &Case, tmp: &std::path::Path) -> Vec<String> {
             }
         }
     }
-    let _ = std::fs::remove_dir_all(&dir);
+    if std::env::var("JBKV_KEEP").is_err() {
+        let _ = std::fs::remove_dir_all(&dir);
+    }
     out
 }
